@@ -10,6 +10,7 @@ The projection is a canonical form, it decides nothing:
 from __future__ import annotations
 
 import io
+import json
 import xml.etree.ElementTree as et
 from fractions import Fraction
 from math import gcd
@@ -219,7 +220,10 @@ def build_doc(rng, skeleton, profile, fps, tokens):
 
   def text(parent):
     textno[0] += 1
-    extra = rng.choice(["", "", "", "", " &<>]]>", "\u00e9\u6f22\U0001f600", "\"q'", "  two  spaces ", "\ttab\nline"])
+    extra = rng.choice(["", "", "", "", " &<>]]>", "\u00e9\u6f22\U0001f600", "\"q'", "  two  spaces ", "\ttab\nline",
+                         # characters from the corners of Unicode that XML 1.0 can hold: private use (BMP, planes 15 and 16), the
+                         # last code points, the replacement character, zero-width and bidi controls, NEL / LS
+                         "\ue000\uf8ff", "\U000f0000\U000ffffd", "\U00100000\U0010fffd", "\ufffd\ufeff", "\u200b\u200d\u202e", "\u0085\u2028"])
     t = m.Text(doc, "T%d%s" % (textno[0], extra))
     parent.push_child(t)
 
@@ -545,8 +549,27 @@ def roundtrip(doc, cfg):
     config = imsc_config.IMSCWriterConfiguration(
       time_format=None if cfg["fmt"] == "none" else TimeExpressionSyntaxEnum[cfg["fmt"]], fps=fps)
   from .core import AltContext, alt_for
+  import zlib
+  size = len(json.dumps(rec["A"], sort_keys=True, default=str))
+  if zlib.crc32(repr(("prior", D, size, cfg["fmt"], cfg["fn"])).encode()) % 4 == 1:
+    # the same document has been converted to the other formats earlier in this process (whatever those conversions
+    # keep - time objects, caches - must not show in this one)
+    import logging
+    was = logging.root.manager.disable
+    logging.disable(logging.CRITICAL)
+    try:
+      import ttconv.srt.writer as srt_writer
+      import ttconv.vtt.writer as vtt_writer
+      which = zlib.crc32(repr(("which", size, D)).encode()) % 4
+      for other in [(srt_writer,), (vtt_writer,), (vtt_writer, srt_writer), (srt_writer, vtt_writer)][which]:
+        try:
+          other.from_model(doc)
+        except Exception:  # pylint: disable=broad-except
+          pass
+    finally:
+      logging.disable(was)
   try:
-    with AltContext(alt_for(("imscw", D, len(rec["A"].get("N", [])), cfg["fmt"]))) as ac:
+    with AltContext(alt_for(("imscw", D, size, cfg["fmt"]))) as ac:
       tree = writer.from_model(doc, config, ac.progress)
     buf = io.BytesIO()
     tree.write(buf, encoding="utf-8", xml_declaration=True)
